@@ -14,7 +14,6 @@ import (
 	"encoding/json"
 	"errors"
 	"fmt"
-	"time"
 
 	dsl "github.com/ahimsalabs/durable-streams-go/durablestream"
 	"github.com/ahimsalabs/durable-streams-go/durablestream/transport"
@@ -190,13 +189,4 @@ func vmDSHTTPRead(t *transport.HTTPTransport, ctx context.Context, req transport
 //verif:redirect (*github.com/ahimsalabs/durable-streams-go/durablestream/transport.HTTPTransport).LongPoll
 func vmDSHTTPLongPoll(t *transport.HTTPTransport, ctx context.Context, req transport.LongPollRequest) (*transport.ReadResponse, error) {
 	return vmDSHTTP[t].LongPoll(ctx, req)
-}
-
-// time.After in the library's back-off: model time passes at once.
-//
-//verif:redirect time.After
-func vmDSTimeAfter(d time.Duration) <-chan time.Time {
-	ch := make(chan time.Time, 1)
-	ch <- time.Time{}
-	return ch
 }
